@@ -570,6 +570,53 @@ def run_large(ctx, rng, idx):
                       'large model: eq_probs_ differ from the pipeline by '
                       '%.3g' % np.abs(pi - np.asarray(pp)).max())
     ctx.nontriv('large', n, tuple(len(t) for t in trajs))
+    run_large_spectrum(ctx, rng)
+
+
+def run_large_spectrum(ctx, rng):
+    """Leading eigenvalues of a sparse reversible chain with >= 1000 states
+    (ARPACK path) that also has an eigenvalue close to -1: a strongly coupled
+    pair of states hanging off the first cluster.  'Descending order' means
+    by value, so the negative eigenvalue must not displace a positive one."""
+    Cs = mc.large_metastable_counts(rng, symmetric=True).tolil()
+    n0 = Cs.shape[0]
+    C = sp.lil_matrix((n0 + 2, n0 + 2), dtype=float)
+    C[:n0, :n0] = Cs
+    big = float(rng.integers(2000, 20000))
+    C[n0, n0 + 1] = C[n0 + 1, n0] = big
+    C[n0, 0] = C[0, n0] = float(rng.integers(1, 6))
+    C = C.tocsr()
+    rs = np.asarray(C.sum(axis=1)).ravel()
+    T = sp.diags(1.0 / rs) @ C
+    T = [sp.csr_matrix, sp.csc_matrix][int(rng.integers(0, 2))](T)
+    d = 1.0 / np.sqrt(rs)
+    S = (sp.diags(d) @ C @ sp.diags(d)).toarray()
+    ref = np.sort(np.linalg.eigvalsh((S + S.T) / 2))[::-1]
+    npos = int(np.sum(ref > 0.9))
+    k = int(rng.integers(2, npos + 3))
+    ctx.describe({'kind': 'large-spectrum', 'n_states': n0 + 2, 'n_eigs': k,
+                  'most_negative_eigenvalue': float(ref[-1])})
+    try:
+        with warnings.catch_warnings():
+            warnings.simplefilter('ignore')
+            vals, vecs = tm.eigenspectrum(T, n_eigs=k)
+    except Exception as e:  # noqa
+        ctx.crash('spectrum.large.raised', e)
+        return
+    ctx.count('large_spectra_checked')
+    vals = np.asarray(vals)
+    if vals.shape != (k,) or np.abs(np.imag(vals)).max() > 1e-9 or \
+            np.abs(np.real(vals) - ref[:k]).max() > 1e-7:
+        ctx.violation('spectrum.large.not-the-leading-eigenvalues',
+                      '%d states, n_eigs=%d: got %s, the %d largest are %s '
+                      '(smallest eigenvalue %.6f)' % (
+                          n0 + 2, k, np.real(vals).tolist(), k,
+                          ref[:k].tolist(), ref[-1]))
+        return
+    v0 = np.real(np.asarray(vecs)[:, 0])
+    if np.abs(v0 - rs / rs.sum()).max() > 1e-8:
+        ctx.violation('spectrum.large.first-vector-not-stationary',
+                      'max deviation %.3g' % np.abs(v0 - rs / rs.sum()).max())
 
 
 def run_case(ctx, kind, rng, idx):
